@@ -1676,8 +1676,32 @@ def judgeC13 (ops : List OpRec) : List String :=
     s) ({} : JSt)
   s.out
 
+/-- the thin public wrappers are judged as what they are documented to be: `fetch_messages_for_partition` = `fetch_messages`
+    of one partition, `commit_offset` = `commit_offsets` of one offset, `poll` followed by `consume_messageset` on every
+    delivered set = `poll` followed by `consume_message` at each set's last offset -/
+def normaliseOp (op : OpRec) : List OpRec :=
+  match op.toks with
+  | [tgt, "fetch_for_partition", t, p, o, m] => [{ op with toks := [tgt, "fetch_messages", t, p, o, m] }]
+  | [tgt, "commit_offset", g, t, p, o] => [{ op with toks := [tgt, "commit_offsets", g, t, p, o] }]
+  | ["poll_mark"] =>
+    if !op.result.startsWith "ok" then [{ op with toks := ["poll"] }] else
+    let parts := op.result.splitOn " marks="
+    let pollRes := parts.headD op.result
+    let marks : List String := ((parts.getD 1 "").splitOn ",").filter (· != "")
+    let sets := pollSets pollRes
+    let sorted := Replay.sortBy (fun (a b : (Bytes × Int) × List String) => bytesLt a.1.1 b.1.1 || (a.1.1 == b.1.1 && a.1.2 < b.1.2)) sets
+    let consumes : List OpRec := (sorted.zip marks).filterMap fun (x : ((Bytes × Int) × List String) × String) =>
+      match x.1.2.getLast? with
+      | some m =>
+        let off := ((m.splitOn ":").headD "0")
+        some { idx := op.idx, toks := ["consume", toHexTok x.1.1.1, toString x.1.1.2, off], evs := [],
+               result := if x.2 == "ok" then "ok" else "err " ++ x.2 }
+      | none => none
+    { op with toks := ["poll"], result := pollRes } :: consumes
+  | _ => [op]
+
 def judge (prop : String) (lines : List String) : List String :=
-  let ops := parseOps lines
+  let ops := (parseOps lines).flatMap normaliseOp
   match prop with
   | "C12" => judgeC12 ops
   | "C03" => judgeC03 ops
